@@ -10,7 +10,7 @@ from vk import common
 
 PROPERTY = "C18"
 LEVEL = "exploration"
-RULE = ("exhaustive: 1..4 caches x all 2^n hit/miss assignments x reads {get, gets, get_many, gets_many} and writes {set, add, "
+RULE = ("exhaustive: 1..4 caches x all 3^n assignments of {miss, hit, hit with a falsy non-None value} x reads {get, gets, get_many, gets_many} and writes {set, add, "
         "replace, append, prepend, cas, delete, incr, decr, touch, flush_all} x default and non-default arguments; plus real "
         "Clients over reference servers as caches (get/get_many/gets_many and all writes). Non-trivial = >=2 caches; distinct by the full case.")
 ASSUMPTIONS = [
@@ -40,6 +40,15 @@ WRITES = {
 }
 
 
+class FalsyHit(bytes):
+    """a cached empty value: not None, but falsy"""
+
+    def __new__(cls, idx):
+        o = super().__new__(cls, b"")
+        o.idx = idx
+        return o
+
+
 class Cache:
     def __init__(self, idx, hit, log):
         self.idx, self.hit, self.log = idx, hit, log
@@ -49,7 +58,11 @@ class Cache:
         self.log.append((self.idx, name, args, {}))
         if not self.hit:
             return {} if multi else None
-        r = {"k1": ("value-from-cache-%d" % self.idx,)} if multi else ("value-from-cache-%d" % self.idx,)
+        if self.hit == "falsy" and not multi:
+            # a hit whose value is falsy but not None: an empty value, zero, an empty str
+            r = FalsyHit(self.idx)
+        else:
+            r = {"k1": ("value-from-cache-%d" % self.idx,)} if multi else ("value-from-cache-%d" % self.idx,)
         self.answers[name] = r
         return r
 
@@ -206,12 +219,13 @@ def shard(tier, seed, idx, n_sh):
     from pymemcache import fallback
     work = 0
     for n in (1, 2, 3, 4):
-        for hits in itertools.product((False, True), repeat=n):
+        for hits in itertools.product((False, True, "falsy"), repeat=n):
             work += 1
             if work % n_sh != idx:
                 continue
             run_scripted(res, fallback, n, hits)
-            run_real(res, fallback, n, hits)
+            if "falsy" not in hits:
+                run_real(res, fallback, n, hits)
     res.extra["exhaustive"] = True
     res.extra["exhaustive_part"] = "1..4 caches x all hit/miss assignments x all reads and writes"
     return res
